@@ -1166,8 +1166,8 @@ def w_stripset( ctx ):
             vals = _possible_consts( src, fn, c.args[0] )
             tokens = [ v for v in vals if isinstance( v, ( str, bytes )) and len( v ) > 1 and _TOKENLIKE.match( v if isinstance( v, str ) else v.decode( 'latin-1' )) ]
             if tokens:
-                res.bad( src, c, '%s( %s ) with the token %r' % ( c.func.attr, norm_text( txt( c.args[0] ))[:30], tokens[0] ),
+                res.bad( src, c, '%s( %s ) with the token %r' % ( c.func.attr, norm_text( ast.unparse( c.args[0] ))[:30], tokens[0] ),
                          "strip() removes any run of the CHARACTERS of its argument, not the suffix / prefix: names that end in one of those characters lose more than the token ( 'x.2.bz2' -> 'x', 'x.12.bz2' -> 'x.1' ) and are taken for another name" )
             else:
-                res.ok( src, c, '%s( %s ): a character set' % ( c.func.attr, norm_text( txt( c.args[0] ))[:30] ))
+                res.ok( src, c, '%s( %s ): a character set' % ( c.func.attr, norm_text( ast.unparse( c.args[0] ))[:30] ))
     return res
